@@ -9,11 +9,17 @@ import (
 	"errors"
 	"fmt"
 	"io"
+	"math"
 	"strings"
 
 	"github.com/virus-evolution/gofasta/pkg/alphabet"
 	"github.com/virus-evolution/gofasta/pkg/encoding"
 )
+
+// MaxLineLength is the longest line the fasta readers accept. How a file is wrapped must not
+// decide whether it can be read, so this is as large as a bufio.Scanner allows on every platform
+// (the buffer only grows as far as the longest line actually met)
+const MaxLineLength = math.MaxInt32
 
 // A struct for one Fasta record
 type FastaRecord struct {
@@ -135,7 +141,7 @@ func getAlignmentDims(f io.Reader) (int, int, error) {
 	l := 0
 
 	s := bufio.NewScanner(f)
-	s.Buffer(make([]byte, 0), 1024*1024)
+	s.Buffer(make([]byte, 0), MaxLineLength)
 
 	for s.Scan() {
 		line := s.Text()
@@ -249,7 +255,7 @@ func ReadAlignment(f io.Reader, chnl chan FastaRecord, cErr chan error, cdone ch
 
 	var err error
 	s := bufio.NewScanner(f)
-	s.Buffer(make([]byte, 0), 1024*1024)
+	s.Buffer(make([]byte, 0), MaxLineLength)
 
 	counter := 0
 
@@ -351,7 +357,7 @@ func ReadEncodeAlignment(f io.Reader, hardGaps bool, chnl chan EncodedFastaRecor
 	}
 
 	s := bufio.NewScanner(f)
-	s.Buffer(make([]byte, 0), 1024*1024)
+	s.Buffer(make([]byte, 0), MaxLineLength)
 
 	first := true
 
@@ -468,7 +474,7 @@ func ReadEncodeScoreAlignment(f io.Reader, hardGaps bool, chnl chan EncodedFasta
 	scoring := encoding.MakeEncodedScoreArray()
 
 	s := bufio.NewScanner(f)
-	s.Buffer(make([]byte, 0), 1024*1024)
+	s.Buffer(make([]byte, 0), MaxLineLength)
 
 	first := true
 
@@ -600,7 +606,7 @@ func ReadEncodeAlignmentToList(f io.Reader, hardGaps bool) ([]EncodedFastaRecord
 	}
 
 	s := bufio.NewScanner(f)
-	s.Buffer(make([]byte, 0), 1024*1024)
+	s.Buffer(make([]byte, 0), MaxLineLength)
 
 	first := true
 
